@@ -75,15 +75,15 @@ pub fn generate(a: &Args) {
     let mut out = Out::create(&a.out);
     let mut rng = Rng::new(a.seed ^ 0xC15);
     let th = is_thorough(a);
-    let m = if th { 8 } else { 6 };
+    let m = if th { 14 } else { 6 };
     for c in 1..=m { for r in 1..=m { for back in [false, true] { il_events(&mut out, c, r, back); } } }
-    for _ in 0..(if th { 300 } else { 40 }) {
+    for _ in 0..(if th { 3000 } else { 40 }) {
         let c = 1 + rng.below(40);
         let r = 1 + rng.below(40);
         il_events(&mut out, c, r, rng.coin(1, 2));
     }
     // every pattern up to length 5 (6 thorough) with at least one true, all lengths 0..=3*len+2 (fits and misfits)
-    let maxp = if th { 6 } else { 5 };
+    let maxp = if th { 8 } else { 5 };
     for plen in 1..=maxp {
         for x in 1u32..(1u32 << plen) {
             let pat: Vec<bool> = (0..plen).map(|k| (x >> k) & 1 == 1).collect();
@@ -96,7 +96,7 @@ pub fn generate(a: &Args) {
             for len in 0..=(3 * plen + 2) { pu_events(&mut out, &pat, len); }
         }
     }
-    for _ in 0..(if th { 400 } else { 50 }) {
+    for _ in 0..(if th { 4000 } else { 50 }) {
         let plen = 1 + rng.below(12);
         let mut pat: Vec<bool> = (0..plen).map(|_| rng.coin(1, 2)).collect();
         let k = rng.below(plen);
